@@ -694,6 +694,9 @@ func (e *Evaluator) evalBinaryExpr(expr *parser.BinaryExpression) (value, error)
 	if err != nil {
 		return nil, err
 	}
+	// The left operand keeps the value it has now: err and errmsg are
+	// updated in place if the right operand calls a conversion builtin.
+	left = copyOrRef(left)
 	// We need to short-circuit the evaluation of expr.Right for and/or
 	// operators. We start of treating "right" as "left" and only if
 	// we cannot short-circuit do we evaluate expr.Right. If we do
@@ -834,6 +837,7 @@ func (e *Evaluator) evalIndexExpr(expr *parser.IndexExpression) (value, error) {
 	if err != nil {
 		return nil, err
 	}
+	left = copyOrRef(left) // see evalBinaryExpr
 	index, err := e.eval(expr.Index)
 	if err != nil {
 		return nil, err
@@ -888,6 +892,7 @@ func (e *Evaluator) evalSliceExpr(expr *parser.SliceExpression) (value, error) {
 	if err != nil {
 		return nil, err
 	}
+	left = copyOrRef(left) // see evalBinaryExpr
 	var start, end value
 	if expr.Start != nil {
 		if start, err = e.eval(expr.Start); err != nil {
